@@ -1074,3 +1074,229 @@ class C04(Prop):
 
 
 PROPS["C04"] = C04()
+
+
+# ----------------------------------------------------------------------------- tree helpers
+
+def fsx(files):
+    return "(" + " ".join("(%s %s %s)" % (hx(p), k, hx(c)) for p, k, c in files) + ")"
+
+
+def opx(ops):
+    return "(" + " ".join(ops) + ")"
+
+
+def op_new(d="tpl", e=".tw", page="", debug=0):
+    return "(new %s %s %s %d)" % (hx(d), hx(e), hx(page), debug)
+
+
+def op_string(name, data=None):
+    return "(string %s%s)" % (hx(name), " " + data if data else "")
+
+
+def op_response(name, data=None):
+    return "(response %s%s)" % (hx(name), " " + data if data else "")
+
+
+def op_evalstr(src, data=None):
+    return "(evalstr %s%s)" % (hx(src), " " + data if data else "")
+
+
+def op_evalfile(rel, data=None):
+    return "(evalfile %s%s)" % (hx(rel), " " + data if data else "")
+
+
+def tree_case(cid, files, ops, constraints):
+    return "\t".join([cid, "tree", hx(fsx(files)), hx(opx(ops)), "Q:" + ";".join(constraints)])
+
+
+TREE_DATA = "((%s (str %s)) (%s (int 3)) (%s (slice (int 1) (int 2))) (%s (bool 1)) (%s (map (%s (str %s)))))" % (
+    hx("name"), hx("Ann"), hx("n"), hx("items"), hx("flag"), hx("user"), hx("Name"), hx("Bo"))
+
+
+# ----------------------------------------------------------------------------- C06
+
+class C06(Prop):
+    timeout_ms = 5000
+    rule = ("generated template trees: a layout with 1..3 reserves placed at top level, inside @if, inside @each (rendered "
+            "once per pass) and inside nested blocks; a page that @use-s it (plain and '~' alias) and inserts every subset "
+            "of the reserves in block or expression form with data-dependent content, with extra text between the inserts; "
+            "directory / extension settings varied. The oracle is the property itself: String(page, data) must equal "
+            "EvaluateString of the layout source in which every @reserve is textually replaced by the insert's content. "
+            "Fault trees: an insert that names no reserve, two inserts with one name, a missing layout, a layout that uses "
+            "a layout. Non-trivial: at least two reserves or a reserve inside a block.")
+    explanation = ("Theorems: loader lemmas on the model (layouts are not registered; an insert without a reserve, a "
+                   "missing layout and a layout-in-layout are errors). Correspondence: loader + evaluator model = "
+                   "implementation on every history. Oracle: substitution equality and the four error cases.")
+    assumptions = ["reserve names are distinct within a layout", "the harness writes each tree into a fresh directory and resets package state through the verif hook"]
+
+    CONTENT_BLOCK = ["<b>{{ name }}</b>", "plain", "@if(flag)yes@else no@end", "@each(i in items)[{{ i }}]@end", "{{ n + 1 }}", "",
+                     "{{ v9 = n }}{{ v9 * 2 }}", "a\nb"]
+    CONTENT_EXPR = ["name", "n * 2", "'lit <i>'", "items.len()", "user.name", "flag ? 'T' : 'F'"]
+
+    def layout(self, rng, names):
+        parts = ["<html>"]
+        for nm in names:
+            r = "@reserve('%s')" % nm
+            w = rng.random()
+            if w < 0.4:
+                parts.append("<%s>" % nm + r + "</%s>" % nm)
+            elif w < 0.6:
+                parts.append("@if(flag)(" + r + ")@else none@end")
+            elif w < 0.8:
+                parts.append("@each(k in items){{ k }}:" + r + ";@end")
+            else:
+                parts.append("@if(n > 1)@each(k in [1])<" + r + ">@end@end")
+            parts.append(rng.choice(["", " ", "\n", "{{ name }}"]))
+        parts.append("</html>")
+        return parts
+
+    def generate(self, rng, tier):
+        lines = []
+        n = {"quick": 500, "thorough": 6000, "search": 1500}[tier]
+        for i in range(n):
+            names = rng.sample(["title", "body", "foot", "x1"], rng.choice([1, 2, 2, 3]))
+            lparts = self.layout(rng, names)
+            inserted = [nm for nm in names if rng.random() < 0.7]
+            rng.shuffle(inserted)
+            page, subst = ["@use('%s')" % rng.choice(["~main", "layouts/main"])], {}
+            for nm in inserted:
+                if rng.random() < 0.5:
+                    c = rng.choice(self.CONTENT_BLOCK)
+                    page.append("@insert('%s')%s@end" % (nm, c))
+                    subst[nm] = c
+                else:
+                    c = rng.choice(self.CONTENT_EXPR)
+                    page.append("@insert('%s', %s)" % (nm, c))
+                    subst[nm] = "{{ " + c + " }}"
+                page.append(rng.choice(["", " dropped text ", "\n", "<p>page text</p>"]))
+            lsrc = "".join(lparts)
+            inlined = lsrc
+            for nm in names:
+                inlined = inlined.replace("@reserve('%s')" % nm, subst.get(nm, ""))
+            d, e = rng.choice([("tpl", ".tw"), ("tpl/", ".tw"), ("./tpl", ".tw.html"), ("views/sub", ".html"), ("tpl//", ".tw")])
+            dd = d.strip("/").replace("./", "")
+            files = [("%s/page%s" % (dd, e), "file", "".join(page)), ("%s/layouts/main%s" % (dd, e), "file", lsrc)]
+            ops = [op_new(d, e), op_string("page", TREE_DATA), op_evalstr(inlined, TREE_DATA), op_string("layouts/main", TREE_DATA)]
+            lines.append(tree_case("C06:%d" % i, files, ops, ["ok:0", "eq:1:2", "err:3", "nopanic"]))
+        # the four error cases
+        for i in range({"quick": 40, "thorough": 300, "search": 80}[tier]):
+            lay = "<t>@reserve('title')</t>@reserve('body')"
+            k = i % 4
+            if k == 0:
+                page = "@use('~main')@insert('title', 'a')@insert('nosuch')x@end"
+                files = [("tpl/page.tw", "file", page), ("tpl/layouts/main.tw", "file", lay)]
+                cons = ["err:0", "msgsub:0:" + hx("nosuch"), "nopanic"]
+            elif k == 1:
+                page = "@use('~main')@insert('title', 'a')\n@insert('title')b@end"
+                files = [("tpl/page.tw", "file", page), ("tpl/layouts/main.tw", "file", lay)]
+                cons = ["err:0", "msgsub:0:" + hx("title"), "nopanic"]
+            elif k == 2:
+                page = "@use('~gone')@insert('title', 'a')"
+                files = [("tpl/page.tw", "file", page), ("tpl/layouts/main.tw", "file", lay)]
+                cons = ["err:0", "msgsub:0:" + hx("gone"), "nopanic"]
+            else:
+                page = "@use('~main')@insert('title', 'a')"
+                files = [("tpl/page.tw", "file", page), ("tpl/layouts/main.tw", "file", "@use('~base')" + lay),
+                         ("tpl/layouts/base.tw", "file", "B@reserve('title')")]
+                cons = ["err:1", "nopanic"]
+            lines.append(tree_case("C06:e%d" % i, files, [op_new("tpl", ".tw"), op_string("page", TREE_DATA)], cons))
+        return lines, {"exhaustive": False, "distribution": {"layout_page_pairs": n}}
+
+    def nontrivial(self, r):
+        return r["case"].count("4072657365727665") >= 1   # "@reserve" appears in hex of fs (double-hexed: approximate)
+
+
+PROPS["C06"] = C06()
+
+
+# ----------------------------------------------------------------------------- C07
+
+class C07(Prop):
+    timeout_ms = 5000
+    rule = ("generated trees: a component file with named and default slots and arguments used in text and in conditions; "
+            "pages using it 1..3 times - the same component several times with different arguments and slot bodies, at top "
+            "level, inside @if, inside @each (one use evaluated per pass) and inside a layout insert. Oracle = the property: "
+            "String(page) must equal EvaluateString of the page in which every use is replaced by the component source in a "
+            "child scope ('@if(true){{ k = v }}...@end') with each @slot replaced by that use's body (or nothing). Fault "
+            "trees: undeclared slot, slot passed twice, missing component file (must fail at load and name the component). "
+            "Non-trivial: two or more uses.")
+    explanation = ("Theorems: loader lemmas on the model (each use receives its own slot bodies: apply_component is a "
+                   "function of that use's slots only). Correspondence: loader + evaluator model = implementation. "
+                   "Oracle: inlining equality and the three load-time error cases.")
+    assumptions = ["argument names do not collide with visible variables of another type (the evaluator ignores that binding error)",
+                   "slots are declared at the top level of the component file"]
+
+    def comp_src(self, rng):
+        return rng.choice([
+            "<div class='{{ kind }}'>@slot|@slot('foot')</div>",
+            "[@if(big)BIG@else small@end:{{ label }}:@slot('head')/@slot]",
+            "({{ label }}{{ kind }}@slot)",
+            "<c>@slot('head')<m>{{ label.upper() }}</m>@slot('foot')</c>",
+        ])
+
+    def use(self, rng, csrc, idx):
+        args = {"kind": rng.choice(["'k%d'" % idx, "name", "'q'"]), "label": rng.choice(["'L%d'" % idx, "name", "user.name"]),
+                "big": rng.choice(["true", "false", "n > %d" % idx])}
+        slots = {}
+        if "@slot|" in csrc or "@slot]" in csrc or "@slot)" in csrc or csrc.count("@slot") > csrc.count("@slot('"):
+            if rng.random() < 0.8:
+                slots[""] = rng.choice(["D%d" % idx, "{{ name }}%d" % idx, "@if(flag)f%d@end" % idx, "{{ label }}!"])
+        for nm in ("head", "foot"):
+            if "@slot('%s')" % nm in csrc and rng.random() < 0.7:
+                slots[nm] = rng.choice(["%s%d" % (nm, idx), "<i>{{ n + %d }}</i>" % idx, "{{ kind }}"])
+        use = "@component('%s', {%s})" % (rng.choice(["~card", "components/card"]), ", ".join("%s: %s" % kv for kv in args.items()))
+        order = list(slots.items())
+        rng.shuffle(order)
+        for nm, body in order:
+            use += rng.choice(["", " ", "\n"]) + ("@slot" if nm == "" else "@slot('%s')" % nm) + body + "@end"
+        inl = csrc
+        for nm in ("head", "foot"):
+            inl = inl.replace("@slot('%s')" % nm, slots.get(nm, ""))
+        inl = inl.replace("@slot", slots.get("", ""))
+        inl = "@if(true)" + "".join("{{ %s = %s }}" % kv for kv in sorted(args.items())) + inl + "@end"
+        return use, inl
+
+    def generate(self, rng, tier):
+        lines = []
+        n = {"quick": 500, "thorough": 6000, "search": 1500}[tier]
+        for i in range(n):
+            csrc = self.comp_src(rng)
+            k = rng.choice([1, 2, 2, 3])
+            page, inl = [], []
+            for u in range(k):
+                use, ui = self.use(rng, csrc, u)
+                w = rng.random()
+                pre = rng.choice(["<p>", "A", "x{{ n }}"])
+                if w < 0.5:
+                    page += [pre, use, "|"]; inl += [pre, ui, "|"]
+                elif w < 0.75:
+                    page += [pre, "@if(flag)", use, "@end|"]; inl += [pre, "@if(flag)", ui, "@end|"]
+                else:
+                    page += [pre, "@each(it in items){{ it }}", use, "@end|"]; inl += [pre, "@each(it in items){{ it }}", ui, "@end|"]
+            files = [("tpl/page.tw", "file", "".join(page)), ("tpl/components/card.tw", "file", csrc)]
+            ops = [op_new("tpl", ".tw"), op_string("page", TREE_DATA), op_evalstr("".join(inl), TREE_DATA)]
+            lines.append(tree_case("C07:%d" % i, files, ops, ["ok:0", "eq:1:2", "nopanic"]))
+            if i % 10 == 0:   # the same uses inside a layout insert
+                files2 = [("tpl/page.tw", "file", "@use('~m')@insert('b')" + "".join(page) + "@end"), ("tpl/components/card.tw", "file", csrc),
+                          ("tpl/layouts/m.tw", "file", "<L>@reserve('b')</L>")]
+                ops2 = [op_new("tpl", ".tw"), op_string("page", TREE_DATA), op_evalstr("<L>" + "".join(inl) + "</L>", TREE_DATA)]
+                lines.append(tree_case("C07:l%d" % i, files2, ops2, ["ok:0", "eq:1:2", "nopanic"]))
+        for i in range({"quick": 30, "thorough": 300, "search": 60}[tier]):
+            k = i % 3
+            csrc = "<c>@slot('head')|@slot</c>"
+            if k == 0:
+                page = "a@component('~card')@slot('nosuch')x@end b"
+                cons = ["err:0", "msgsub:0:" + hx("card"), "nopanic"]
+            elif k == 1:
+                page = "a@component('~card')@slot('head')x@end@slot('head')y@end b"
+                cons = ["err:0", "msgsub:0:" + hx("card"), "nopanic"]
+            else:
+                page = "a\n@component('~gone') b"
+                cons = ["err:0", "msgsub:0:" + hx("gone"), "line:0:2", "nopanic"]
+            files = [("tpl/page.tw", "file", page), ("tpl/components/card.tw", "file", csrc)]
+            lines.append(tree_case("C07:e%d" % i, files, [op_new("tpl", ".tw")], cons))
+        return lines, {"exhaustive": False, "distribution": {"pages": n}}
+
+
+PROPS["C07"] = C07()
